@@ -113,8 +113,8 @@ def gen_literals(rng, tier):
         out.append(("dna", c * 33))
     for c in iup:
         out.append(("iupac", c * 17))
-    # the macro also spells the gap as X (the runtime parser does not: recorded, outside the property)
-    out.append(("iupac", "AXG"))
+    # (the macro also spells the gap as X while the runtime parser does not: outside both halves of the
+    # property, so no literal with X is compiled - a maintainer may align the two either way)
     for n in list(range(1, 33)):
         out.append(("kmer", "".join(rng.choice(dna) for _ in range(n))))
     if tier == "thorough":
